@@ -102,6 +102,12 @@ type EvalOpts struct {
 	Options []risor.Option
 }
 
+// HostEnv: the environment of every evaluation's VirtualOS (several variables: their order is observable through
+// os.environ()).
+func HostEnv() map[string]string {
+	return map[string]string{"HOME": "/h", "LANG": "C", "PATH": "/bin", "TERM": "x", "USER": "u", "ZED": "z"}
+}
+
 // Eval runs src through lexer, parser, compiler and VM with a captured stdout.
 func Eval(src string, eo EvalOpts) (obs N) {
 	stdout := ros.NewBufferFile(nil)
@@ -110,7 +116,7 @@ func Eval(src string, eo EvalOpts) (obs N) {
 	}
 	ctx, cancel := context.WithTimeout(context.Background(), eo.Timeout)
 	defer cancel()
-	vos := ros.NewVirtualOS(ctx, ros.WithStdout(stdout))
+	vos := ros.NewVirtualOS(ctx, ros.WithStdout(stdout), ros.WithEnvironment(HostEnv()))
 	defer func() {
 		if r := recover(); r != nil {
 			obs = N{"k": "gopanic", "msg": fmt.Sprint(r), "out": Cps(string(stdout.Bytes()))}
@@ -142,7 +148,7 @@ func EvalRoute(src string, route string) (obs N) {
 	stdout := ros.NewBufferFile(nil)
 	ctx, cancel := context.WithTimeout(context.Background(), 3*time.Second)
 	defer cancel()
-	vos := ros.NewVirtualOS(ctx, ros.WithStdout(stdout))
+	vos := ros.NewVirtualOS(ctx, ros.WithStdout(stdout), ros.WithEnvironment(HostEnv()))
 	defer func() {
 		if r := recover(); r != nil {
 			obs = N{"k": "gopanic", "msg": fmt.Sprint(r), "out": Cps(string(stdout.Bytes())), "route": route}
